@@ -16,15 +16,15 @@ def qs(l):
 
 HEADER = """From Verif Require Import NdIndex Quat RotArr ZoneModel KField GroupK KFloat CertCheck RegionCertsAll.
 Open Scope float_scope.
-Record case := mk { nl : String.string; nr : String.string; Gl : list (quat (T:=float)); Gr : list (quat (T:=float)); N : list (quat (T:=float));
+Record case := mk { nl : String.string; nr : String.string; pairs : list (quat (T:=float) * quat (T:=float)); N : list (quat (T:=float));
   ms : list (quat (T:=float)); outs : list (quat (T:=float)); ins : list bool }.
 Definition eps9f : float := 1e-9.
 (* inside tests whose decisive dot product is within 1e-12 of the +-1e-9 tolerance are not compared *)
 Definition near_tol (N : list (quat (T:=float))) (x : quat (T:=float)) : bool :=
   existsb (fun n => let d := abs (qdot FOps n x) in abs (d - eps9f) <? 1e-12) N.
 Definition ok (c : case) : bool :=
-  all2 q_close (map (reduce FOps eps9f (N c) (Gl c) (Gr c)) (ms c)) (outs c)
-  || existsb (fun m => existsb (fun gl => existsb (fun gr => near_tol (N c) (transform FOps gl gr m)) (Gr c)) (Gl c)) (ms c).
+  all2 q_close (map (fun m => reduce_loop FOps eps9f (N c) (pairs c) m (qone FOps)) (ms c)) (outs c)
+  || existsb (fun m => existsb (fun glr => near_tol (N c) (transform FOps (fst glr) (snd glr) m)) (pairs c)) (ms c).
 Definition ok_inside (c : case) : bool :=
   all2 Bool.eqb (map (fun m => inside_region FOps eps9f (N c) m) (ms c)) (ins c)
   || existsb (near_tol (N c)) (ms c).
@@ -33,7 +33,8 @@ Definition ok_inside (c : case) : bool :=
 
 def case_coq(c):
     head = 'mk "%s" "%s" ' % (c["pair"][0], c["pair"][1])
-    return (head + f"{qs(c['Gl'])} {qs(c['Gr'])} {qs(c['N'])} {qs(c['m'])} {qs(c['out'])} "
+    prs = "[" + "; ".join(f"({q4(a)}, {q4(b)})" for a, b in c["pairs"]) + "]"
+    return (head + f"{prs} {qs(c['N'])} {qs(c['m'])} {qs(c['out'])} "
             "[" + "; ".join("true" if b else "false" for b in c["inside_in"]) + "]")
 
 
@@ -43,7 +44,7 @@ def run(tier, seed):
                    "translator for the Hamilton product kernel",
                    "region construction (pruning of normals, axis fundamental zone, vertex filter) is not modelled as code: the exact directions of the normals it produces for all 225 ordered pairs of proper groups are regenerated from /repo on every run (tools/translate/units_c05.py), recognised in K (fail-closed), compared with the run-time normals in the correspondence, and their adequacy (inside => minimal angle in the whole orbit) is PROVED via exact Farkas certificates checked in Coq", "the LP that finds the certificates (scipy) is untrusted: certificates are checked by vm_compute"]
     ck.assumptions += ["eps = 1e-9 tolerance of the inside test is part of the model; the minimal-angle theorem is for the exact test (eps = 0)",
-                       "orbit = proper operations of both groups (property statement)"]
+                       "orbit = { gl*M*gr : gl, gr both proper or both improper operations of the two groups } -- the symmetry-equivalent (proper) misorientations; it equals the proper x proper orbit of the property statement whenever one of the groups is proper or both contain the inversion, and the orbit of the groups chosen by get_proper_groups (for which the region is built) otherwise (DESIGN.md section 9.4, repair 91fe48e)"]
     if not ck.step_sanity():
         return ck.finish()
     ck.step_prove(["groups", "regions", "quatkernels", "conversions"], "Props/C05.v", extra=["Model/ZoneModel.vo", "Model/RotArr.vo", "Model/KFloat.vo"])
@@ -87,8 +88,8 @@ Definition ok (c : case) : bool := ok_red c && ok_ins c && ok_normals c.
     for f in out["fails"]:
         ck.failure(f["sig"], f["what"], f["replay"])
     ck.cov["rule"] = ("orientations (C1, G) for a random subset (quick) / all 38 groups (thorough); misorientations for random (quick) / "
-                      "all 256 (thorough) ordered pairs of proper groups plus Laue and improper pairs; 40 inputs for cubic x hexagonal "
-                      "pairs; points on and within 1e-9 of region vertices; shapes; every result is compared with the brute-force orbit")
+                      "all 225 (thorough) ordered pairs of proper groups; every combination of group classes (proper / inversion / improper without inversion) with cubic x hexagonal-or-trigonal pairs in both orders (80 inputs each; thorough: all such pairs with 200 inputs and all 1300 ordered pairs with a region); "
+                      "40 inputs for cubic x hexagonal proper pairs; points on and within 1e-9 of region vertices; shapes; every result is compared with the brute-force orbit")
     return ck.finish()
 
 
